@@ -31,6 +31,7 @@ extern int ledger_failed;        /* number of injected failures that fired */
 extern long ledger_bad_free;     /* frees of unknown / already freed pointers while on */
 extern size_t ledger_live_bytes, ledger_peak_bytes;
 extern size_t ledger_big_request; /* largest single request seen */
+extern size_t ledger_limit;       /* requests above this size fail */
 void ledger_reset(void);         /* forget everything (does not free) */
 int ledger_live(void);
 void ledger_forget(void *p);     /* stop tracking p (ownership moved to the harness) */
@@ -51,5 +52,7 @@ void cur_init(void);
 void cur_set(long idx, const unsigned char *b, size_t n);
 int cur_label(const char *s);   /* returns 1 if the sub-case is in the skip set */
 void cur_skip_set(const char *s);
+extern const char *pm_mask;
+int pm_masked(const char *syn);
 
 #endif
